@@ -72,6 +72,10 @@ func generate(prop, tier string, seed uint64, run int) *Scenario {
 	case "C03":
 		return genMix(prop, seed, run, mixOpts{lagfree: 0.2, apiChurn: 0.05, shapes: []int{0, 1}, maxOps: 40, watchFiles: 0.4, worldTasks: 1, burst: 0.04, overflow: 0.15})
 	case "C08":
+		if pick >= 88 {
+			// recursive watches: names below a renamed sub-directory and its siblings (seed C08-h)
+			return genRecurse(prop, seed, run, tier)
+		}
 		return genMix(prop, seed, run, mixOpts{lagfree: 0.3, apiChurn: 0.15, spellings: true, shapes: []int{1, 1, 1, 2, 3, 4, 0}, maxOps: 30, watchFiles: 0.4, worldTasks: 2})
 	case "C04":
 		// thorough tier: two of every three runs walk through the enumeration
